@@ -1,5 +1,10 @@
 from typing import Any, Literal, Sequence
-from ..errors import UnexpectedTokenError, ExpectedTokenError, StackOverflowError
+from ..errors import (
+    UnexpectedTokenError,
+    ExpectedTokenError,
+    StackOverflowError,
+    ExceededLimitError,
+)
 from ..environments.environment import Environment
 
 from .tokens import Token, value_types, operands, isToken, Operator
@@ -375,7 +380,12 @@ class Tokenizer(Token):
         110
         """
         x = Tokenizer(stack, env, string)
-        return x.solve()
+        try:
+            return x.solve()
+        except RecursionError:
+            raise ExceededLimitError(
+                stack, "The expression is too long to be evaluated."
+            )
 
     @staticmethod
     def tokenize_all(
